@@ -791,8 +791,14 @@ impl Fiber {
       .expect("Unable to write to stderr");
     }
 
-    let message = error[0].to_obj().to_str();
-    writeln!(log, "{}: {}", &*error.class().name(), &*message).expect("Unable to write to stderr");
+    // a subclass of Error may leave the message unset or set it to any value
+    let message = error[0];
+    let message = if message.is_obj_kind(ObjectKind::String) {
+      message.to_obj().to_str().to_string()
+    } else {
+      message.to_string()
+    };
+    writeln!(log, "{}: {}", &*error.class().name(), message).expect("Unable to write to stderr");
   }
 
   /// Get a value on the stack
